@@ -16,7 +16,9 @@ string, `Print.texts p`).
 Hypotheses: `Print.wf p` (the abstract path has a spelling that parses back to it — see
 JPV/Print.lean for the five side conditions), `ExtOK ext p` (the standard-library parameter reads
 the literals of `p` back) and `EnvOK env p` (the function kinds recorded in `p` are the ones
-`pushFunction` decides on). All three are necessary: see the counterexamples at the end.
+`pushFunction` decides on — it looks a name up as filter function first; an abstract `.afn` whose
+name is also registered as a filter function is built as an aggregate by `Build` and as a filter
+function by `Parse`). The side conditions of `wf` are needed: see the examples at the end.
 -/
 import JPV.Lemmas.ParsePrintSimRec
 import JPV.Lemmas.ParsePrintBlank
@@ -264,6 +266,51 @@ example (env : Env) (cfg : Cfg) :
   subst hs
   exact ⟨ex_intOK _ (by decide) (by decide), ex_intOK _ (by decide) (by decide), ex_atoi1⟩
 
+/-! ### a syntax error with its position -/
+
+open JPV.Build in
+/-- `$[?(@.*==1)]`: the operand `@.*` is a value group -/
+def exVg : Path := .mk .root [.filter "" (.cmp .eq (.path (.mk .cur [.wild ""] [])) (.lit (.num 1)))] []
+
+open JPV.Build in
+theorem exVg_inner (cfg : Cfg) : buildPath exEnv cfg false (pathT (.mk .cur [.wild ""] [])) =
+    .ok [.wild ⟨String.ofList ['.', '*'], "", true, false⟩] := by
+  rw [buildPath_of_sp exEnv cfg false false .cur [.wild ""] [] [.node (String.ofList ['.', '*']) true (fun i => .wild i)]
+    (by rw [stepsT, stepsT, stepsPre, stepT, stepPre, stepsPre]; rfl) (by simp)]
+  simp [ccChain, linkPres, linkFn, headRaw, rawOf, nodeWith, BD.headPreOf, Build.markVg, N.info, N.setVg,
+    delRoot_cons, delRootNode, setAccChain, nSetAcc, nMapInfoDeep, nMapInfo, preVg, Pre.text]
+
+open JPV.Build in
+theorem exVg_operand (cfg : Cfg) :
+    buildOperand exEnv cfg (operandT (.path (.mk .cur [.wild ""] []))) = .error .valueGroupOperand := by
+  rw [operandT, buildOperand, BD.buildP_eq, exVg_inner]
+  rfl
+
+open JPV.Build in
+theorem exVg_step (cfg : Cfg) : stepPre exEnv cfg (stepT false
+    (.filter "" (.cmp .eq (.path (.mk .cur [.wild ""] [])) (.lit (.num 1))))) = .error .valueGroupOperand := by
+  rw [stepT, stepPre, queryT, buildQ, exVg_operand]
+  rfl
+
+open JPV.Build in
+theorem exVg_build (cfg : Cfg) : Build.build exEnv cfg (texts exVg) = .error .valueGroupOperand := by
+  rw [Build.build, texts, exVg, pathT, BD.buildPath_eq, stepsT, stepsPre, exVg_step]
+  rfl
+
+open JPV.Build in
+theorem exVg_pos (cfg : Cfg) : errPos exEnv cfg exVg = 4 := by
+  rw [errPos, exVg, posPath, posSteps, exVg_step, seqPos_error, posStep, posQ, exVg_operand, seqPos_error,
+    posOperand, exVg_inner, seqPos_ok]
+
+example (cfg : Cfg) : parseModel exEnv exExt cfg (printS exVg) =
+    .syntaxErr 4 "JSONPath that returns a value group is prohibited" (String.ofList "@.*==1)]".toList) := by
+  have h := ParsePrint_valueGroup exEnv exExt cfg exVg (by decide) (by
+      simp only [ExtOK, exVg, pathExt, stepsExt, stepExt, queryExt, operandExt, and_true, true_and]
+      exact ex_numLit 1 (by decide) (by decide))
+    (by simp [EnvOK, exVg, pathEnv, stepsEnv, stepEnv, queryEnv, operandEnv]) (exVg_build cfg)
+  rw [h, exVg_pos]
+  rfl
+
 /-! ### the side conditions of `Print.wf` are needed
 
 `Build.build` accepts abstract paths that no string parses to; on them the printed string is read
@@ -293,3 +340,4 @@ end JPV
 -- OBLIGATIONS: ParsePrint_exact ParsePrint_holds ParsePrint_fragment_A ParsePrint_fragment_B
 --   ParsePrint_fragment_D ParsePrint_ok ParsePrint_functionNotFound ParsePrint_valueGroup
 --   ParsePrint_twoCurrentNodes ParsePrint_blanks ParsePrint_blanks_same exPath_wf exPath_ext exPath_env
+--   exVg_build exVg_pos
